@@ -183,4 +183,11 @@ def start (pre : List (Nat × Nat)) (rc : Nat → List Rcpt) (nn : Nat → Bool)
     orig := fun id => if (pre.map (·.1)).contains id then some (rc id) else none,
     nonNull := nn }
 
+/-- The same, with the attempt counters the storage holds (a queue restarted after earlier attempts were made). -/
+def startAt (pre : List (Nat × Nat)) (rc : Nat → List Rcpt) (nn : Nat → Bool) (att : Nat → Nat) : State :=
+  { s := { stored := pre },
+    msgs := fun id => if (pre.map (·.1)).contains id then some ⟨rc id, att id⟩ else none,
+    orig := fun id => if (pre.map (·.1)).contains id then some (rc id) else none,
+    nonNull := nn }
+
 end Slimta.QM
